@@ -178,6 +178,9 @@ func verifyFunc(L *Loaded, fn *ssa.Function, fc *FuncContract) (res *FuncResult)
 	if fc != nil && fc.InlineCalls {
 		ex.maxInline = 14
 	}
+	if fc != nil && fc.InlineCalls {
+		ex.maxInline = 14
+	}
 	defer func() {
 		res.Obligs = ex.obligs
 		res.Paths = ex.paths
